@@ -189,6 +189,11 @@ int val_compare(NanoValue a, NanoValue b) {
             return 0;
         case TAG_BOOL:
             return (int)a.as.boolean - (int)b.as.boolean;
+        case TAG_ENUM:
+            /* enum values order as the integers they are (as in the enum-int cases above) */
+            if (a.as.enum_val < b.as.enum_val) return -1;
+            if (a.as.enum_val > b.as.enum_val) return 1;
+            return 0;
         case TAG_STRING:
             if (a.as.string == b.as.string) return 0;
             if (!a.as.string) return -1;
